@@ -647,6 +647,7 @@ int main(int argc, char** argv)
     sh.nworkers = std::min<int>(a.jobs, static_cast<int>(jobs.size()));
     sh.tmpdir = a.tmpdir;
     sh.case_timeout_s = 3000;
+    sh.fatal_exit_code = 97; // engine/sched.c: a scheduled thread waits on something the scheduler does not model
     sh.rerun_factor = 1;
     sh.deadline_s = a.deadline_s;
     sh.walk = [&](mc::Ctx& ctx) {
